@@ -346,11 +346,18 @@ pub fn apply(op: &Op, obj: &mut Object, m: &mut Model, fresh: &mut Fresh) -> Res
 				})
 				.clone()
 			} else {
-				obj.get_mut_or_insert_with(k.as_str(), || {
+				let slot = obj.get_mut_or_insert_with(k.as_str(), || {
 					called = true;
 					nv.clone()
-				})
-				.clone()
+				});
+				let seen = slot.clone();
+				if let Some(&i) = pos.first() {
+					// overwrite the existing value in place through the returned reference
+					let nv2 = fresh.next();
+					*slot = nv2.clone();
+					m.entries[i].1 = nv2;
+				}
+				seen
 			};
 			if got != want || called != pos.is_empty() {
 				return Err(format!("{:?} returned {:?} (constructor called: {}), expected {:?}", op, got, called, want));
